@@ -109,8 +109,8 @@ BINOPS = ("+", "-", "*", "&", "|", "^", "<<", ">>", "==", "!=", "<", "<=", ">", 
 def e_type(t, structs):
   if t[0] == "B": return f"Bits{t[1]}"
   if t[0] == "S":
-    structs[t[1]] = t
-    for _, ft in t[2]: e_type(ft, structs)
+    for _, ft in t[2]: e_type(ft, structs)      # nested structs are defined first
+    structs.setdefault(t[1], t)
     return t[1]
   if t[0] == "L": return "[" + ", ".join([e_type(t[1], structs)] * t[2]) + "]"
   raise KeyError(t)
@@ -146,6 +146,7 @@ def e_expr(e):
     return f"{e[1]}({', '.join(args)})"
   if k in ("lv", "tv"): return e[1]
   if k == "st": return f"{e[1]}({', '.join(e_expr(a) for a in e[2:])})"
+  if k == "lst": return "[" + ", ".join(e_expr(a) for a in e[1:]) + "]"
   raise KeyError(e)
 
 
@@ -265,6 +266,8 @@ def expr_refs(e, out):
   elif k in ("call", "st"):
     for a in e[2:]:
       if a[0] not in ("ty", "n"): expr_refs(a, out)
+  elif k == "lst":
+    for a in e[1:]: expr_refs(a, out)
 
 
 def stmt_access(stmts, reads, writes):
